@@ -56,8 +56,9 @@ def instances(tier, seed):
         state, names = c11.initial_state(tset, N, placement)
         for tname, _ in target_variants(state, names, tier, False):
             if tname.startswith(("removed", "zeroed")) and "+" not in tname:
-                yield {"kind": "collision", "name": name, "tset": tset, "N": N, "placement": placement,
-                       "target": tname}
+                for order in ("names", "reversed"):
+                    yield {"kind": "collision", "name": name, "tset": tset, "N": N, "placement": placement,
+                           "target": tname, "dict_order": order}
     for i, sc in enumerate(DTMC_SCENARIOS):
         if tier not in sc[4]:
             continue
@@ -79,6 +80,12 @@ COLLISION_SCENARIOS = [
     ("key-collision-blue-red-10", "blue+red", 10,
      [(1, (0, 1)), (1, (0, 2)), (1, (1, 2)), (1, (3, 4)), (1, (5, 6)),
       (0, (3, 5)), (0, (4, 6)), (0, (7, 8)), (0, (7, 9)), (0, (8, 9))]),
+    # classes X=(2,1) {0,1}, Y=(1,2) {2,3}, Z=(3,0) {4}: decrementing the WRONG component of X and Y gives (2,0) and
+    # (1,1), which are genuine blue excess keys (of Z and X), so an index mix-up scores the forbidden blue pairing
+    # X-Y as the allowed pairing Z-X
+    ("index-collision-blue-red-8", "blue+red", 8,
+     [(0, (0, 1)), (0, (0, 4)), (0, (1, 4)), (0, (2, 3)), (0, (4, 7)),
+      (1, (0, 2)), (1, (1, 3)), (1, (2, 5)), (1, (3, 6))]),
 ]
 
 
@@ -151,7 +158,14 @@ def run_box(inst, tier, res):
             # with >= 2 topologies a second complete proposal inside one call needs two extra draws (d = 2): this is
             # what exposes state carried from a proposal of one topology into a proposal of another
             dd = d if tname == "graded" else (2 if (len(names) >= 2 and nE <= (4 if tier == "quick" else 5)) else 0)
-            r = mcmc.explore_step(state, state, shapes0, names, target, dd)
+            # the matrices may be handed over in any dict order: alternate between the order of EDGE_NAMES and its
+            # reverse (topology indices must come from EDGE_NAMES, not from the dict)
+            mcmc.EJKS_DICT_ORDER[0] = ("reversed" if (len(names) >= 2 and res.counters.get("state_target_pairs", 0) % 2)
+                                      else "names")
+            try:
+                r = mcmc.explore_step(state, state, shapes0, names, target, dd)
+            finally:
+                mcmc.EJKS_DICT_ORDER[0] = "names"
             res.executions += r.leaves
             res.revalidated += r.rechecked
             res.transitions += len(r.successors)
@@ -175,7 +189,12 @@ def run_scenario(inst, tier, res):
     for tname, target in target_variants(state, names, tier, False):
         if "+" in tname and tier == "quick":
             continue
-        seen, graph, problems, stats = mcmc.closure(state, names, target, 0, cap=cap)
+        mcmc.EJKS_DICT_ORDER[0] = "reversed" if (len(names) >= 2 and tname.startswith(("removed", "graded"))) \
+            else "names"
+        try:
+            seen, graph, problems, stats = mcmc.closure(state, names, target, 0, cap=cap)
+        finally:
+            mcmc.EJKS_DICT_ORDER[0] = "names"
         res.executions += stats["leaves"]
         res.states += len(graph)
         res.transitions += stats["transitions"]
@@ -336,17 +355,57 @@ def reference_ratio(pre, post, names, target):
     return num / den if den else float("inf")
 
 
+def reference_moves_c2(state, names, target):
+    """Harness-side proposal kernel for single-topology 2-clique networks (documented swap semantics, independent of
+    the code under test): every ordered pair of distinct edges e0 = (u0, u1), e1 = (v0, v1) (stored sorted, focal
+    vertex = first element) proposes the edges (u0, v1), (v0, u1) unless that would create a self-loop or an existing
+    edge; swaps that leave the mixing matrix unchanged are not counted as moves.  Returns {post: sum of min(1, r)},
+    {post: number of proposals}, {post: sum of min(1, 1/r)}."""
+    edges = [(u, v) for u, v, _, _ in state[1]]
+    eset = set(edges)
+    top = names[0]
+    jd = dict(state[0])
+
+    def exc(v):
+        return tuple(x - (1 if j == 0 else 0) for j, x in enumerate(jd[v]))
+
+    def w(a, b):
+        return target[top].get(exc(a) + exc(b), 0.0)
+    acc, cnt, anti = {}, {}, {}
+    for e0 in edges:
+        for e1 in edges:
+            if e0 == e1:
+                continue
+            (u0, u1), (v0, v1) = e0, e1
+            if u0 == v1 or v0 == u1:
+                continue
+            a, b = tuple(sorted((u0, v1))), tuple(sorted((v0, u1)))
+            if a in eset or b in eset or a == b:
+                continue
+            new_keys = {exc(u0) + exc(v1), exc(v0) + exc(u1)}
+            old_keys = {exc(u0) + exc(u1), exc(u1) + exc(u0), exc(v0) + exc(v1), exc(v1) + exc(v0)}
+            if new_keys <= old_keys:
+                continue  # nothing changes
+            post = proposed_state_c2(state, e0, e1)
+            den = w(u0, u1) * w(v0, v1)
+            num = w(u0, v1) * w(v0, u1)
+            r = num / den if den > 0 else float("inf")
+            acc[post] = acc.get(post, 0.0) + min(1.0, r)
+            cnt[post] = cnt.get(post, 0.0) + 1.0
+            anti[post] = anti.get(post, 0.0) + (min(1.0, 1.0 / r) if r > 0 else 1.0)
+    return acc, cnt, anti
+
+
 def run_dtmc(inst, tier, res):
     desc = {k: inst[k] for k in ("name", "tset", "N", "placement", "target_kind", "search_limit")}
     state, names = c11.initial_state(inst["tset"], inst["N"], inst["placement"])
     target = mcmc.make_target(state, names, inst["target_kind"])
     sl = inst["search_limit"]
-    # closure by BFS over one-iteration explorations
+    # closure by BFS over the union of the real successors and the reference kernel's successors
     state = norm_ids(state)
     order = [state]
     index = {state: 0}
-    rows_real, rows_ref = [], []
-    props_by_state = []
+    rows_real, rows_ref, rows_null, rows_anti = [], [], [], []
     leaves_total = [0]
     diag = []
     i = 0
@@ -361,36 +420,27 @@ def run_dtmc(inst, tier, res):
                                 "C12 is not decidable on this tree"})
             return
         res.states += 1
-        props_by_state.append(props)
         leaves_total[0] += LAST_LEAVES[0]
-        real, ref = {}, {}
-        for post, q, thr, pacc in props:
+        racc, rcnt, ranti = reference_moves_c2(s, names, target)
+        for post in list(racc) + [p[0] for p in props]:
             if post not in index:
                 if len(order) >= 4000:
                     raise engine.InfraError("DTMC closure larger than 4000 states")
                 index[post] = len(order)
                 order.append(post)
-            t = min(1.0, max(0.0, float(thr)))
-            rr = min(1.0, reference_ratio(s, post, names, target))
+        real = {}
+        for post, q, thr, pacc in props:
             real[index[post]] = real.get(index[post], 0.0) + float(pacc)
-            ref[index[post]] = ref.get(index[post], 0.0) + float(q) * rr
-            diag.append((float(thr), rr))
+            if thr is not None and pacc:
+                diag.append((float(thr), reference_ratio(s, post, names, target)))
             res.transitions += 1
         rows_real.append(real)
-        rows_ref.append(ref)
+        rows_ref.append({index[p]: v for p, v in racc.items()})
+        rows_null.append({index[p]: v for p, v in rcnt.items()})
+        rows_anti.append({index[p]: v for p, v in ranti.items()})
     res.executions += leaves_total[0]
     n = len(order)
     dist0 = [mcmc.l1_distance(s, names, target) for s in order]
-    rows_anti, rows_null = [], []
-    for a, ref in enumerate(rows_ref):
-        anti, null = {}, {}
-        for post, q, thr, pacc in props_by_state[a]:
-            rr = reference_ratio(order[a], post, names, target)
-            anti[index[post]] = anti.get(index[post], 0.0) + float(q) * min(1.0, (1.0 / rr) if rr > 0 else 1.0)
-            null[index[post]] = null.get(index[post], 0.0) + float(q)
-        rows_anti.append(anti)
-        rows_null.append(null)
-
     def evolve(rows, steps):
         """f_k[a] = expected L1 distance after k accepted swaps when starting from state a (backward recursion)."""
         f = list(dist0)
@@ -467,8 +517,13 @@ def run_collision(inst, tier, res):
     desc = {k: inst[k] for k in ("name", "tset", "N", "placement")}
     state, names = c11.initial_state(inst["tset"], inst["N"], inst["placement"])
     target = dict(target_variants(state, names, tier, False))[inst["target"]]
-    r = mcmc.explore_step(state, state, mcmc.motif_shapes(state), names, target, 2, max_leaves=5_000_000,
-                          recheck_every=23)
+    mcmc.EJKS_DICT_ORDER[0] = inst.get("dict_order", "names")
+    try:
+        r = mcmc.explore_step(state, state, mcmc.motif_shapes(state), names, target,
+                              2 if inst.get("dict_order", "names") == "names" else 0, max_leaves=5_000_000,
+                              recheck_every=23)
+    finally:
+        mcmc.EJKS_DICT_ORDER[0] = "names"
     res.executions += r.leaves
     res.revalidated += r.rechecked
     res.states += 1
@@ -476,9 +531,9 @@ def run_collision(inst, tier, res):
     res.count("collision_scenario_runs", r.leaves)
     report(res, desc, r.problems, inst["target"])
     if r.successors:
-        res.nontrivial.add((inst["name"], inst["target"]))
+        res.nontrivial.add((inst["name"], inst["target"], inst.get("dict_order")))
         res.flags.add("collision-scenario")
-    res.samples.append({"scenario": inst["name"], "target": inst["target"], "deviation_bound": 2,
+    res.samples.append({"scenario": inst["name"], "target": inst["target"], "matrix_dict_order": inst.get("dict_order"),
                         "runs": r.leaves, "accepted_swap_successors": len(r.successors)})
 
 
